@@ -13,7 +13,12 @@ Correspondence / oracle on every run:
     vector goal vs its scalar goals; single pass (both methods) vs multi-pass keep_soft_constraints;
     CachingQPSol vs plain qpsol; MinAbsGoalProgrammingMixin vs the explicit two-sided formulation;
     map modes / expand; a second optimize() on the same instance vs a fresh instance —
-    per-priority objective values equal to 1e-6.
+    per-priority objective values equal to 1e-6;
+  * `CachingQPSol` sessions (harness/c17_caching.py): the real front-end driven through several constructions
+    (rows appended / unchanged, new objective) and several calls with changing bounds on random small QPs; the
+    keyword arguments it hands to the conic back-end and the reported objective are compared exactly with the
+    Lean model `C17.session`; oracles: plain qpsol on the same NLP, the NLP objective / bounds at the returned
+    point, a brand-new CachingQPSol for the same NLP and arguments.
 A one-sided solver failure whose constraint system an independent LP solve finds feasible is
 `solver-numerics`: counted, not a violation.
 """
@@ -27,6 +32,7 @@ import numpy as np
 from . import c03_gen as G
 from . import c03_oracle as O
 from . import c03_synth as S
+from . import c17_caching
 from .common import fr, unfr
 
 NAN = float("nan")
@@ -374,6 +380,159 @@ def pairs_single_pass(c, n):
                 c.disagree("objective-row bounds (%s)" % mode, case, mt, list(zip(lo, hi)))
 
 
+class PerPriorityOptions:
+    """`goal_programming_options()` whose `constraint_relaxation` / `fix_minimized_values` depend on the priority
+    that is active (tracked through the public `priority_started` hook): inst["opts_pp"] = {priority: {...}},
+    inst["opts_pp_base"] = values before the first priority starts"""
+
+    def priority_started(self, priority):
+        self._c17_active_priority = priority
+        super().priority_started(priority)
+
+    def goal_programming_options(self):
+        o = super().goal_programming_options()
+        pp = self.inst.get("opts_pp")
+        if pp is not None:
+            act = getattr(self, "_c17_active_priority", None)
+            for k, v in (pp.get(act) or self.inst.get("opts_pp_base", {})).items():
+                o[k] = v
+        return o
+
+
+def conflict_instance(rng):
+    """consecutive priorities that pull one variable in opposite directions (so that the slack left on the
+    objective of an earlier priority decides the optimum of the next one), plus a third priority"""
+    T = rng.choice([2, 3, 4])
+    times = [float(i) for i in range(T)]
+    v = rng.choice(["x", "u", "y"])
+    lo, hi = S.VAR_RANGE[v]
+    a = float(rng.choice([5, 8, 10]))
+    prios = sorted(rng.sample([1, 2, 3, 5, 10], rng.choice([2, 3, 3])))
+    up_first = rng.random() < 0.5
+    goals = []
+    for k, p in enumerate(prios):
+        if k == 2:
+            w = rng.choice([x for x in ["x", "u", "y"] if x != v])
+            goals.append({"path": True, "vars": [w], "kind": "min", "priority": p, "order": 1, "weight": 1.0, "ti": 0,
+                          "nominal": [rng.choice([1.0, 10.0])]})
+            continue
+        want_min = (k == 0) == up_first
+        g = {"path": rng.random() < 0.8, "vars": [v], "kind": "tmin" if want_min else "tmax", "priority": p, "order": 1,
+             "weight": rng.choice([1.0, 2.5]), "ti": rng.randrange(T), "nominal": [1.0], "range": ([lo], [hi])}
+        g["tmin" if want_min else "tmax"] = {"k": "sc", "v": a if want_min else a - float(rng.choice([2, 4, 6]))}
+        goals.append(g)
+    return {"times": times, "theta": 1.0, "probs": [1.0], "pvals": [[rng.choice([0.5, 1.0]), 0.0]],
+            "cvals": [[1.0] * T], "mode": "keep", "solver": "highs",
+            "opts": {"scale_by_problem_size": rng.random() < 0.5}, "goals": goals}
+
+
+def pairs_priority_options(c, n):
+    """single pass (both methods) vs keep-soft when `constraint_relaxation` / `fix_minimized_values` differ per
+    priority: the retained objective row of a priority is built with the options that were active AT that
+    priority (GoalProgrammingMixin reads them right after the priority is completed; the single-pass mixin
+    documents to match).  Oracles: equal per-priority optima; the bounds of the retained objective rows in the
+    transcribed single-pass problems, re-stated in plain Python from the run's own optima and the options of
+    each priority; the Lean Plan model with per-priority bounds."""
+    rng = c.rng
+    lines, meta = [], []
+    done = tries = 0
+    while done < n and tries < 40 * n:
+        tries += 1
+        if rng.random() < 0.5:
+            inst = conflict_instance(rng)
+        else:
+            inst = G.gen_instance(rng, mode="keep", allow_vector=True)
+        prios = [p for p, _ in S.priorities_of(inst)]
+        if len(prios) < 2:
+            continue
+        done += 1
+        inst["opts"].pop("fix_minimized_values", None)
+        inst["opts"].pop("constraint_relaxation", None)
+        crs = rng.sample([0.0, 0.02, 0.05, 0.1, 0.3, 0.5], len(prios))  # pairwise distinct
+        inst["opts_pp"] = {p: {"constraint_relaxation": crs[k], "fix_minimized_values": rng.random() < 0.2}
+                           for k, p in enumerate(prios)}
+        inst["opts_pp_base"] = {"constraint_relaxation": rng.choice([0.0, 0.7]), "fix_minimized_values": False}
+        sides = {}
+        for m in ("keep", "sp1", "sp2"):
+            out, pr = S.run_instance(inst, mode=m, capture_full=False, extra_bases=(PerPriorityOptions,))
+            f = None
+            if out is False:
+                try:
+                    f = S.failed_lp(pr)
+                except Exception:
+                    f = None
+            sides[m] = (out, objs(pr), f, pr)
+        c.programs += 3
+        c.count(("priority-options", len(prios), tuple(crs), tuple(round(v, 6) for v in sides["keep"][1])))
+        c.hit("priority-options/instances")
+        case = {"inst": dict(brief(inst), opts_per_priority={str(k): v for k, v in inst["opts_pp"].items()},
+                             opts_before_first_priority=inst["opts_pp_base"])}
+        for m in ("sp1", "sp2"):
+            compare(c, "single-pass-vs-keep-soft/per-priority options", dict(case, method=m), sides["keep"][:3],
+                    sides[m][:3], "keep_soft", m)
+        # does the relaxation matter here?  (informational: an optimum that moved with the slack)
+        # plain-Python oracle on the transcribed single-pass problems
+        for m, nt_of in (("sp1", lambda k, npr: k), ("sp2", lambda k, npr: npr)):
+            out, vals, _, pr = sides[m]
+            if isinstance(out, tuple):
+                continue
+            caps = pr.cap
+            for k, cp in enumerate(caps):
+                nt = nt_of(k, len(prios))
+                if nt == 0 or nt > 6:
+                    continue
+                lo, hi = cp["lbg_tail"][-nt:], cp["ubg_tail"][-nt:]
+                for j in range(nt):
+                    if j < k:
+                        o = inst["opts_pp"][prios[j]]
+                        want = (vals[j], vals[j]) if o["fix_minimized_values"] else (-INF, vals[j] + o["constraint_relaxation"])
+                    else:
+                        want = (-INF, INF)  # method 2: rows of priorities not yet solved
+                    ok = all((w == g) if math.isinf(w) else (not math.isinf(g) and abs(w - g) <= 1e-6 * (1 + abs(w)))
+                             for w, g in zip(want, (lo[j], hi[j])))
+                    if not ok:
+                        c.fail("single pass (%s): the retained objective row of priority %s in the problem of priority %s "
+                               "is not bounded with the options that were active at priority %s"
+                               % (m, prios[j], prios[k], prios[j]), dict(case, method=m),
+                               {"bounds": [lo[j], hi[j]], "documented": list(want), "optimum": vals[j],
+                                "options_at_that_priority": inst["opts_pp"][prios[j]]})
+                        break
+                c.hit("priority-options/objective rows checked")
+        # Plan model with per-priority bounds
+        if all(sides[m][0] is True for m in sides):
+            caps = {m: sides[m][3].cap for m in sides}
+            nprio = len(caps["keep"])
+            Mk = [cp["M"] for cp in caps["keep"]]
+            soft = [0] + [Mk[j] - Mk[j - 1] - 1 for j in range(1, nprio)]
+            vals = [cp["obj"] for cp in caps["keep"]]
+            opts = [inst["opts_pp"][prios[j]] for j in range(nprio)]
+            for k in range(nprio):
+                lines.append({"op": "plan_opts", "base": Mk[0], "soft": soft, "vals": [fr(v) for v in vals],
+                              "fix": [bool(o["fix_minimized_values"]) for o in opts],
+                              "cr": [fr(o["constraint_relaxation"]) for o in opts], "k": k})
+                meta.append((case, k, caps, nprio))
+    outs = c.model(lines) if lines else []
+    for (case, k, caps, nprio), mo in zip(meta, outs or []):
+        cs = dict(case, priority_index=k)
+        real = {"keep": caps["keep"][k]["M"], "append": caps["sp1"][k]["M"], "update": caps["sp2"][k]["M"]}
+        model = {m: mo[m] for m in real}
+        if real != model:
+            c.disagree("row counts of keep-soft / single-pass append / update (per-priority options)", cs, model, real)
+            continue
+        for key, mode, nt in (("append_tail", "sp1", k), ("update_tail", "sp2", nprio)):
+            nt = min(nt, 6)
+            if nt == 0:
+                continue
+            lo = caps[mode][k]["lbg_tail"][-nt:]
+            hi = caps[mode][k]["ubg_tail"][-nt:]
+            mt = mo[key][-nt:]
+            ok = all((unfr(a) == l if isinstance(unfr(a), float) else abs(float(unfr(a)) - l) <= 1e-6 * (1 + abs(l)))
+                     and (unfr(b) == h if isinstance(unfr(b), float) else abs(float(unfr(b)) - h) <= 1e-6 * (1 + abs(h)))
+                     for (a, b), l, h in zip(mt, lo, hi))
+            if not ok:
+                c.disagree("objective-row bounds (%s, per-priority options)" % mode, cs, mt, list(zip(lo, hi)))
+
+
 def pairs_caching(c, n):
     for _ in range(n):
         inst = G.gen_instance(c.rng, mode=c.rng.choice(["sp1", "sp2"]), allow_vector=True)
@@ -701,8 +860,10 @@ def run_check(c):
     big = c.big
     pairs_vector(c, 150 if big else 8)
     pairs_single_pass(c, 120 if big else 6)
+    pairs_priority_options(c, 120 if big else 8)
     pairs_caching(c, 100 if big else 5)
     pairs_caching_qp(c, 40 if big else 3)
+    c17_caching.check_sessions(c, 260 if big else 14, 40 if big else 4)
     pairs_minabs(c, 150 if big else 6)
     pairs_minabs_relaxed(c, 150 if big else 8)
     pairs_map_modes(c, 30 if big else 2)
@@ -716,22 +877,29 @@ def run(c):
         "instance under two formulations documented as equivalent (vector/scalars, single pass x2 / keep-soft, "
         "CachingQPSol / qpsol incl. an order-2 objective with qpoases, min-abs / explicit two-sided, map modes and "
         "expand, second optimize() / fresh); plus the running code's linearised-order tables for orders 2-5 checked "
-        "with exact rationals; distinct = (family, mode, goal count, optimum vector) tuples"
+        "with exact rationals; plus CachingQPSol sessions on random 1-3 variable QPs / LPs (asymmetric coefficient "
+        "matrix, constants in objective and rows, SX and MX symbols, qpoases / HiGHS, 1-4 constructions with rows "
+        "appended or unchanged, 1-3 calls each with changing finite / infinite bounds, a malformed stream with another "
+        "variable count or fewer rows); distinct = (family, mode, goal count, optimum vector) tuples resp. session shapes"
     )
     c.assumptions = [
         "HiGHS / qpoases return optimal points when they report success (per-instance certificates: property C03)",
-        "caching QP front-end, map modes, expand and re-solve are runtime behaviour with no logic model beyond 'same "
-        "rows': decided by the differential runs only (partial by design)",
+        "map modes, expand and re-solve are runtime behaviour with no logic model beyond 'same rows': decided by the "
+        "differential runs only (partial by design)",
+        "CachingQPSol model: CasADi expressions are represented by their normal forms (quadratic objective with an "
+        "arbitrary coefficient matrix, affine rows); ca.gradient / jacobian / substitute-at-0 / vertcat / slicing and "
+        "the conic cost 1/2 x'Hx + g'x are table entries of the translator (trusted mapping, exercised exactly by the "
+        "session stream); history independence is proved for NLP sequences whose rows extend the previous NLP's rows "
+        "(what the single-pass mixin produces), and shown to fail without that hypothesis",
         "single pass vs keep-soft is compared under the documented hypothesis: function ranges of later goals are "
         "implied by the variable bounds, critical goals only at the first priority",
         "vector vs scalar goals: every component of a vector target goal has at least one finite target (a scalar "
         "goal without any is dropped and not counted in n_objectives)",
-        "CachingQPSol reports the cost without the constant term f(0) of the objective (instances have f(0) = 0)",
         "results (trajectories) are compared only through the per-priority optima; uniqueness is not certified here",
     ]
-    from .translate_c17 import gen_c17
+    from .translate_c17 import gen_c17, gen_caching, gen_optread
 
-    c.prove(extra=gen_c17(c))  # + kernels translated from the source on every run
+    c.prove(extra=gen_c17(c) + gen_caching(c) + gen_optread(c))  # + kernels translated from the source on every run
     t0 = time.time()
     run_check(c)
     c.notes.append("runtime equivalences are decided by differential runs (partial); formulation-level equalities and "
@@ -739,8 +907,9 @@ def run(c):
 
 
 def replay(c, rp):
-    from .translate_c17 import gen_c17
+    from .translate_c17 import gen_c17, gen_caching, gen_optread
 
-    c.prove(extra=gen_c17(c))  # + kernels translated from the source on every run
+    c.prove(extra=gen_c17(c) + gen_caching(c) + gen_optread(c))  # + kernels translated from the source on every run
     table_check(c)
     corpus(c)
+    c17_caching.check_sessions(c, 14, 4)
